@@ -33,7 +33,14 @@ def epsg_str_canonical(prog: Program) -> List[Instance]:
     has no textual EPSG fast path. Also: the int() parse must sit in a try (compound `EPSG:7856+5711` codes) or
     behind a digits test. Decides the text handling, not pyproj's own equality."""
     out: List[Instance] = []
-    mk = prog.func("crs:_make_crs")
+    # the function that turns a spec into (pyproj object, text, code): discovered, not named - it tests the text for
+    # the 'EPSG:' prefix and parses the remainder with int()
+    cands = [f for f in prog.all_functions({"crs"}) if f.name != "__eq__" and f.cls is None
+             and any(isinstance(n, ast.Call) and call_name(n) == "startswith" and n.args and isinstance(n.args[0], ast.Constant) and str(n.args[0].value).upper() == "EPSG:" for n in walk_own(f.node))
+             and any(isinstance(n, ast.Call) and call_name(n) == "int" and n.args and not isinstance(n.args[0], (ast.Constant, ast.Name)) for n in walk_own(f.node))]
+    if not cands:
+        return [Instance("R-CACHE", "crs#STRCANON", UNDET, "no function in odc.geo.crs parses the code of an 'EPSG:' text with int() any more: re-read how the stored text is produced", "")]
+    mk = cands[0]
     eq = prog.func("crs:CRS.__eq__")
     # does __eq__ compare `_str` of both sides under a startswith('EPSG:') condition?
     cond = Conditions(eq.body)
